@@ -22,7 +22,7 @@ func c04NonTrivial(tags map[string]int, ev map[string]int) bool {
 
 func TestC04(t *testing.T) {
 	r, e := start(t, "C04",
-		"programs whose operands are wrapped at random positions in effectful tracer calls (ti/tb/ts print 't <id>' and return their argument; tn bumps a global counter and returns it, so a duplicated evaluation changes values): operands of every operator, arguments, indices, slice elements, printed/returned/assigned values, if / else-if / for conditions, case expressions. Oracle: reference interpreter with the README's eager rule; the interleaved trace is compared line by line. Non-trivial = at least two tracers; distinct by source text.",
+		"programs whose operands are wrapped at random positions in effectful tracer calls (ti/tb/ts print 't <id>' and return their argument; tn bumps a global counter and returns it, so a duplicated evaluation changes values): operands of every operator, arguments, indices, slice elements, printed/returned/assigned values, if / else-if / for conditions, case expressions. Oracle: reference interpreter with the README's eager rule; the interleaved trace is compared line by line. Non-trivial = at least two tracers; distinct by source text. A third of the programs (by a hash of the text) additionally run as the text of an imported file (same output expected).",
 		[]string{"switch tags and range operands stay pure (number of evaluations unspecified by the property)"})
 	defer r.Flush()
 	runC04Table(r, e)
